@@ -87,14 +87,14 @@ Section FailPhase.
   Qed.
 
   (* one successor of the node of c gets its failure link and output chain *)
-  Lemma set_fail_step N (pend : word -> Prop) c kc xc a k' N1 :
+  Lemma set_fail_step N (pend : word -> Prop) c kc xc a k' :
     J N pend -> c <> [] -> nodeof N0 c = Some kc -> nth_error N kc = Some xc -> ~ pend c ->
     (forall s, s <> [] -> inT N0 s -> length s <= length c -> ~ pend s) ->
     nodeof N0 (c ++ [a]) = Some k' -> pend (c ++ [a]) ->
-    set_fail (S (length N)) (t_fail xc) N (a, k') = Ok N1 ->
-    J N1 (fun s => pend s /\ s <> c ++ [a]).
+    exists N1, set_fail (S (length N)) (t_fail xc) N (a, k') = Ok N1 /\
+      J N1 (fun s => pend s /\ s <> c ++ [a]) /\ (forall k, k <> k' -> nth_error N1 k = nth_error N k).
   Proof.
-    intros [Hsh [Hr [J1 J4]]] Hc Hkc Exc Hnc Hshallow Hk' Hpend E.
+    intros [Hsh [Hr [J1 J4]]] Hc Hkc Exc Hnc Hshallow Hk' Hpend.
     assert (Hno : forall s, nodeof N s = nodeof N0 s) by (intro s; apply shape_nodeof; exact Hsh).
     assert (HVN : forall s k, nodeof N s = Some k -> k < length N).
     { intros s k H. rewrite Hno in H. apply HV in H. destruct Hsh as [HL _]. lia. }
@@ -124,7 +124,7 @@ Section FailPhase.
       - split; [lia|]. intros x Hx Hi. apply Hfc; [apply (proj2 (psuf_tl x c Hc)); exact Hx|].
         apply (inT_prefix N0 x [a]). unfold inT in *. rewrite <- Hno. exact Hi. }
     destruct (fail_walk_ok N (length c) HVN Hr HFN (tl c) a (S (length N)) (t_fail xc) Hchain) as [st [Ew Hw]].
-    unfold set_fail in E. rewrite Ew in E. cbn [bind] in E.
+    unfold set_fail. rewrite Ew. cbn [bind].
     (* the new node *)
     assert (Hk'0 : k' <> 0).
     { intro E0. subst k'. assert (Hnil : nodeof N0 [] = Some 0) by reflexivity.
@@ -194,12 +194,13 @@ Section FailPhase.
     destruct st as [j|].
     - destruct Hw as [v [j' [Hv [Hvs [He Hmax]]]]].
       destruct (node_get0 N v j Hsh ltac:(rewrite <- Hno; exact Hv)) as [sn Esn].
-      rewrite (idx_Ok N j sn Esn), (idx_Ok N k' sd Esd) in E. cbn [bind] in E.
-      unfold edge in He. rewrite Esn in He. rewrite He in E.
+      rewrite (idx_Ok N j sn Esn), (idx_Ok N k' sd Esd). cbn [bind].
+      unfold edge in He. rewrite Esn in He. rewrite He.
       assert (Hj' : nodeof N0 (v ++ [a]) = Some j').
       { rewrite <- Hno, nodeof_snoc, Hv. unfold edge. rewrite Esn. exact He. }
       destruct (node_get0 N (v ++ [a]) j' Hsh Hj') as [fd Efd].
-      rewrite (idx_Ok N j' fd Efd) in E. cbn [bind] in E. inversion E; subst N1. clear E.
+      rewrite (idx_Ok N j' fd Efd). cbn [bind]. eexists. split; [reflexivity|].
+      split; [|intros k Hk; apply nth_error_upd_other; exact Hk].
       apply (Hfinish (Some j') _). exists (v ++ [a]), fd. split; [exact Hj'|].
       split; [intro En; apply app_eq_nil in En; destruct En; discriminate|]. split.
       + apply (proj2 (psuf_tl v c Hc)) in Hvs. destruct Hvs as [Hvs Hvl].
@@ -209,20 +210,251 @@ Section FailPhase.
         intros y Hy Hi. destruct (Hcand y Hy Hi) as [->|[x [-> [Hx Hix]]]]; [simpl; lia|].
         rewrite !app_length. simpl. pose proof (Hmax x Hx Hix). lia.
     - destruct Hr as [r [Er Efr]].
-      rewrite (idx_Ok N 0 r Er), (idx_Ok N k' sd Esd) in E. cbn [bind] in E.
+      rewrite (idx_Ok N 0 r Er), (idx_Ok N k' sd Esd). cbn [bind].
       destruct (assoc a (t_succ r)) as [fl|] eqn:Ea.
       + assert (Hfl : nodeof N0 [a] = Some fl).
         { rewrite <- Hno. unfold nodeof. simpl. unfold edge. rewrite Er, Ea. reflexivity. }
         destruct (node_get0 N [a] fl Hsh Hfl) as [fd Efd].
-        rewrite (idx_Ok N fl fd Efd) in E. cbn [bind] in E. inversion E; subst N1. clear E.
+        rewrite (idx_Ok N fl fd Efd). cbn [bind]. eexists. split; [reflexivity|].
+        split; [|intros k Hk; apply nth_error_upd_other; exact Hk].
         apply (Hfinish (Some fl) _). exists [a], fd. split; [exact Hfl|]. split; [discriminate|]. split.
         * split; [exists c; reflexivity|]. rewrite app_length. simpl. destruct c; [congruence|simpl; lia].
         * split; [exact Efd|]. split; [reflexivity|].
           intros y Hy Hi. destruct (Hcand y Hy Hi) as [->|[x [-> [Hx Hix]]]]; [simpl; lia|].
           rewrite (Hw x Hx Hix). simpl. lia.
-      + inversion E; subst N1. clear E. apply (Hfinish None _). split; [reflexivity|].
+      + eexists. split; [reflexivity|]. split; [|intros k Hk; apply nth_error_upd_other; exact Hk].
+        apply (Hfinish None _). split; [reflexivity|].
         intros y Hy Hi. destruct (Hcand y Hy Hi) as [->|[x [-> [Hx Hix]]]]; [reflexivity|]. exfalso.
         pose proof (Hw x Hx Hix) as ->. unfold inT, nodeof in Hix. simpl in Hix. unfold edge in Hix.
         rewrite Er, Ea in Hix. congruence.
+  Qed.
+
+  Lemma J_ext N (pend pend' : word -> Prop) :
+    (forall s, inT N0 s -> (pend s <-> pend' s)) -> J N pend -> J N pend'.
+  Proof.
+    intros He [Hsh [Hr [J1 J4]]]. split; [exact Hsh|]. split; [exact Hr|]. split.
+    - intros s k x Hs Hk Ex Hn. apply (J1 s k x Hs Hk Ex). intro Hp. apply Hn. apply He; [unfold inT; congruence|exact Hp].
+    - intros s k x Hk Ex Hp. apply (J4 s k x Hk Ex). apply He; [unfold inT; congruence|exact Hp].
+  Qed.
+
+  (* all successors of the node of c *)
+  Lemma children_fold c kc xc : c <> [] -> nodeof N0 c = Some kc ->
+    forall todo N (pend : word -> Prop),
+    J N pend -> nth_error N kc = Some xc -> ~ pend c ->
+    (forall s, s <> [] -> inT N0 s -> length s <= length c -> ~ pend s) ->
+    (forall a k', In (a, k') todo -> nodeof N0 (c ++ [a]) = Some k' /\ pend (c ++ [a])) ->
+    NoDup (map fst todo) ->
+    exists N1, foldM (set_fail (S (length N0)) (t_fail xc)) todo N = Ok N1 /\
+      J N1 (fun s => pend s /\ forall a k', In (a, k') todo -> s <> c ++ [a]).
+  Proof.
+    intros Hc Hkc. induction todo as [|[a k'] todo IH]; intros N pend HJ Exc Hnc Hsh Htodo Hnd.
+    - exists N. split; [reflexivity|].
+      apply (J_ext N pend); [|exact HJ]. intros s _. split; [intro H; split; [exact H|intros a k' []]|intros [H _]; exact H].
+    - cbn [foldM]. destruct (Htodo a k' (or_introl eq_refl)) as [Hk' Hp'].
+      assert (HL : length N = length N0) by (destruct HJ as [[HL _] _]; exact HL).
+      destruct (set_fail_step N pend c kc xc a k' HJ Hc Hkc Exc Hnc Hsh Hk' Hp') as [N' [Es [HJ' Hsame]]].
+      rewrite HL in Es. rewrite Es. cbn [bind].
+      assert (Exc' : nth_error N' kc = Some xc).
+      { rewrite Hsame; [exact Exc|]. intro Ek. subst k'. pose proof (HI _ _ _ Hkc Hk') as Ec.
+        apply (f_equal (@length nat)) in Ec. rewrite app_length in Ec. simpl in Ec. lia. }
+      inversion Hnd as [|? ? Hnot Hnd']; subst.
+      destruct (IH N' _ HJ' Exc') as [N1 [E1 HJ1]].
+      + intros [Hp _]. exact (Hnc Hp).
+      + intros s Hs Hi Hl [Hp _]. exact (Hsh s Hs Hi Hl Hp).
+      + intros a2 k2 Hin. destruct (Htodo a2 k2 (or_intror Hin)) as [H1 H2]. split; [exact H1|]. split; [exact H2|].
+        intro Ee. apply app_inj_tail in Ee. destruct Ee as [_ Ea]. subst a2.
+        apply Hnot. apply in_map_iff. exists (a, k2). split; [reflexivity|exact Hin].
+      + exact Hnd'.
+      + exists N1. split; [exact E1|]. refine (J_ext N1 _ _ _ HJ1). intros s _. split.
+        * intros [[Hp Hne] Hrest]. split; [exact Hp|]. intros a2 k2 [Ee|Hin]; [inversion Ee; subst; exact Hne|eapply Hrest; exact Hin].
+        * intros [Hp Hall]. split; [split; [exact Hp|apply (Hall a k'); left; reflexivity]|].
+          intros a2 k2 Hin. apply (Hall a2 k2). right. exact Hin.
+  Qed.
+
+  (* ---------- the queue loop ---------- *)
+  Definition pendQ (qs : list word) (s : word) : Prop := exists q, In q qs /\ pprefix q s.
+
+  Definition binv (N : list tnode) (queue : list nat) (qs : list word) (U : list nat) : Prop :=
+    J N (pendQ qs) /\
+    Forall2 (fun k q => nodeof N0 q = Some k) queue qs /\
+    (forall q, In q qs -> q <> []) /\
+    (exists d A B, qs = A ++ B /\ (forall q, In q A -> length q = d) /\ (forall q, In q B -> length q = S d)) /\
+    NoDup U /\ incl queue U /\ NoDup queue /\
+    (forall s a k' ks, s <> [] -> nodeof N0 (s ++ [a]) = Some k' -> nodeof N0 s = Some ks ->
+                       In k' queue \/ ~ In k' U -> ~ In ks U).
+
+  Lemma filter_remove_length (x : nat) l : In x l -> length (filter (fun y => negb (Nat.eqb y x)) l) < length l.
+  Proof.
+    induction l as [|y l IH]; intro H; [destruct H|]. simpl. destruct (Nat.eqb y x) eqn:E; simpl.
+    - assert (Hle : forall m : list nat, length (filter (fun y => negb (Nat.eqb y x)) m) <= length m).
+      { induction m as [|z m IHm]; [simpl; lia|]. simpl. destruct (negb (Nat.eqb z x)); simpl; lia. }
+      specialize (Hle l). lia.
+    - destruct H as [->|H]; [rewrite Nat.eqb_refl in E; discriminate|]. specialize (IH H). lia.
+  Qed.
+
+  Lemma Forall2_In_l {A B} (R : A -> B -> Prop) l1 l2 x : Forall2 R l1 l2 -> In x l1 -> exists y, In y l2 /\ R x y.
+  Proof.
+    intro H. induction H as [|a b l1 l2 Hab H IH]; intro Hin; [destruct Hin|].
+    destruct Hin as [<-|Hin]; [exists b; split; [left; reflexivity|exact Hab]|].
+    destruct (IH Hin) as [y [Hy Hr]]. exists y. split; [right; exact Hy|exact Hr].
+  Qed.
+
+  Lemma Forall2_In_r {A B} (R : A -> B -> Prop) l1 l2 y : Forall2 R l1 l2 -> In y l2 -> exists x, In x l1 /\ R x y.
+  Proof.
+    intro H. induction H as [|a b l1 l2 Hab H IH]; intro Hin; [destruct Hin|].
+    destruct Hin as [<-|Hin]; [exists a; split; [left; reflexivity|exact Hab]|].
+    destruct (IH Hin) as [x [Hx Hr]]. exists x. split; [right; exact Hx|exact Hr].
+  Qed.
+
+  Lemma pprefix_length q s : pprefix q s -> length q < length s.
+  Proof. intros [r [Hr ->]]. rewrite app_length. destruct r; [congruence|simpl; lia]. Qed.
+
+  Lemma NoDup_app_intro {A} (l1 l2 : list A) :
+    NoDup l1 -> NoDup l2 -> (forall x, In x l1 -> In x l2 -> False) -> NoDup (l1 ++ l2).
+  Proof.
+    intros H1 H2 Hd. induction H1 as [|x l1 Hnot H1 IH]; [exact H2|]. simpl. constructor.
+    - intro Hin. apply in_app_or in Hin. destruct Hin as [Hin|Hin]; [contradiction|].
+      apply (Hd x); [left; reflexivity|exact Hin].
+    - apply IH. intros y Hy1 Hy2. apply (Hd y); [right; exact Hy1|exact Hy2].
+  Qed.
+
+  Lemma fail_bfs_ok : forall fuel N queue qs U, binv N queue qs U -> length U < fuel ->
+    exists N', fail_bfs fuel N queue = Ok N' /\ J N' (fun _ => False).
+  Proof.
+    induction fuel as [|fuel IH]; intros N queue qs U Hb Hf; [lia|].
+    destruct Hb as [HJ [Hq [Hne [Hsort [HUnd [Hincl [Hqnd Hpar]]]]]]].
+    destruct Hq as [|kc c queue' qs' Hkc Hq'].
+    - exists N. split; [reflexivity|]. refine (J_ext N _ _ _ HJ). intros s _. split; [intros [q [[] _]]|intros []].
+    - cbn [fail_bfs].
+      assert (Hc : c <> []) by (apply Hne; left; reflexivity).
+      assert (Hsh : shape N0 N) by (destruct HJ as [H _]; exact H).
+      destruct (node_get0 N c kc Hsh Hkc) as [xc Exc]. rewrite (idx_Ok N kc xc Exc). cbn [bind].
+      (* the head is a shallowest entry *)
+      assert (Hmin : forall q, In q (c :: qs') -> length c <= length q).
+      { destruct Hsort as [d [A [B [EAB [HA HB]]]]]. intros q Hq.
+        destruct A as [|a0 A'].
+        - simpl in EAB. subst B. rewrite (HB c (or_introl eq_refl)), (HB q Hq). lia.
+        - simpl in EAB. inversion EAB; subst a0. rewrite (HA c (or_introl eq_refl)).
+          assert (Hqq : In q (c :: A') \/ In q B).
+          { rewrite H1 in Hq. destruct Hq as [<-|Hq]; [left; left; reflexivity|].
+            apply in_app_or in Hq. destruct Hq; [left; right; assumption|right; assumption]. }
+          destruct Hqq as [Hqq|Hqq]; [rewrite (HA q Hqq)|rewrite (HB q Hqq)]; lia. }
+      assert (Hshallow : forall s, s <> [] -> inT N0 s -> length s <= length c -> ~ pendQ (c :: qs') s).
+      { intros s _ _ Hl [q [Hq Hp]]. apply pprefix_length in Hp. specialize (Hmin q Hq). lia. }
+      assert (Hncq : ~ In c qs').
+      { intro Hin. destruct (Forall2_In_r _ _ _ c Hq' Hin) as [k [Hk Hkk]]. rewrite Hkc in Hkk. inversion Hkk; subst k.
+        inversion Hqnd; contradiction. }
+      (* the successors *)
+      assert (Hx0 : exists x0, nth_error N0 kc = Some x0 /\ t_succ x0 = t_succ xc).
+      { destruct Hsh as [_ Hs]. specialize (Hs kc). rewrite Exc in Hs. simpl in Hs.
+        destruct (nth_error N0 kc) as [x0|]; [|discriminate]. exists x0. split; [reflexivity|]. simpl in Hs. congruence. }
+      destruct Hx0 as [x0 [Ex0 Es0]].
+      assert (Hkeys : NoDup (map fst (t_succ xc))) by (rewrite <- Es0; eapply HK; exact Ex0).
+      assert (Hchild : forall a k', In (a, k') (t_succ xc) <-> nodeof N0 (c ++ [a]) = Some k').
+      { intros a k'. rewrite nodeof_snoc, Hkc. unfold edge. rewrite Ex0, Es0. split.
+        - apply assoc_NoDup. exact Hkeys.
+        - apply assoc_In. }
+      destruct (children_fold c kc xc Hc Hkc (t_succ xc) N (pendQ (c :: qs')) HJ Exc) as [N1 [E1 HJ1]].
+      + apply Hshallow; [exact Hc|unfold inT; congruence|lia].
+      + exact Hshallow.
+      + intros a k' Hin. split; [apply Hchild; exact Hin|]. exists c. split; [left; reflexivity|].
+        exists [a]. split; [discriminate|reflexivity].
+      + exact Hkeys.
+      + replace (length N) with (length N0) by (destruct Hsh as [HL _]; lia). rewrite E1. cbn [bind].
+        set (kids := map (fun e => c ++ [fst e]) (t_succ xc)).
+        set (U' := filter (fun y => negb (Nat.eqb y kc)) U).
+        assert (HkcU : In kc U) by (apply Hincl; left; reflexivity).
+        assert (Hkid : forall k', In k' (map snd (t_succ xc)) -> In k' U /\ ~ In k' (kc :: queue') /\ k' <> kc).
+        { intros k' Hin. apply in_map_iff in Hin. destruct Hin as [[a k2] [Ek Hin]]. simpl in Ek. subst k2.
+          apply Hchild in Hin.
+          assert (Hnk : k' <> kc).
+          { intro Ek. subst k'. pose proof (HI _ _ _ Hkc Hin) as Ec. apply (f_equal (@length nat)) in Ec.
+            rewrite app_length in Ec. simpl in Ec. lia. }
+          destruct (in_dec Nat.eq_dec k' (kc :: queue')) as [Hi|Hi].
+          - exfalso. exact (Hpar c a k' kc Hc Hin Hkc (or_introl Hi) HkcU).
+          - destruct (in_dec Nat.eq_dec k' U) as [Hu|Hu]; [split; [exact Hu|split; [exact Hi|exact Hnk]]|].
+            exfalso. exact (Hpar c a k' kc Hc Hin Hkc (or_intror Hu) HkcU). }
+        destruct (IH N1 (queue' ++ map snd (t_succ xc)) (qs' ++ kids) U') as [N' [E' HJ']].
+        * split; [|split; [|split; [|split; [|split; [|split; [|split]]]]]].
+          -- (* J *)
+             refine (J_ext N1 _ _ _ HJ1). intros s Hs. split.
+             ++ intros [[q [Hq Hp]] Hnk]. destruct Hq as [<-|Hq].
+                ** destruct Hp as [r [Hr ->]]. destruct r as [|a r']; [congruence|].
+                   assert (Hin : inT N0 (c ++ [a])).
+                   { apply (inT_prefix N0 _ r'). rewrite <- app_assoc. exact Hs. }
+                   unfold inT in Hin. destruct (nodeof N0 (c ++ [a])) as [k'|] eqn:Ek; [|congruence].
+                   apply Hchild in Ek. exists (c ++ [a]). split.
+                   { apply in_or_app. right. unfold kids. apply in_map_iff. exists (a, k'). split; [reflexivity|exact Ek]. }
+                   exists r'. split; [|rewrite <- app_assoc; reflexivity].
+                   intros ->. apply (Hnk a k' Ek). reflexivity.
+                ** exists q. split; [apply in_or_app; left; exact Hq|exact Hp].
+             ++ intros [q [Hq Hp]]. apply in_app_or in Hq. destruct Hq as [Hq|Hq].
+                ** split; [exists q; split; [right; exact Hq|exact Hp]|].
+                   intros a k' Hin ->. pose proof (pprefix_length _ _ Hp) as Hl. rewrite app_length in Hl. simpl in Hl.
+                   pose proof (Hmin q (or_intror Hq)) as Hm.
+                   destruct Hp as [r [Hr Er]]. assert (Hlq : length q = length c) by lia.
+                   assert (Eq : q = c).
+                   { apply (f_equal (firstn (length c))) in Er. rewrite firstn_app, firstn_all, Nat.sub_diag in Er.
+                     simpl in Er. rewrite app_nil_r in Er. rewrite <- Hlq, firstn_app, firstn_all, Nat.sub_diag in Er.
+                     simpl in Er. rewrite app_nil_r in Er. symmetry. exact Er. }
+                   subst q. contradiction.
+                ** unfold kids in Hq. apply in_map_iff in Hq. destruct Hq as [[a k'] [<- Hin]]. simpl fst in *.
+                   destruct Hp as [r [Hr ->]]. split.
+                   --- exists c. split; [left; reflexivity|]. exists ([a] ++ r). split; [discriminate|rewrite app_assoc; reflexivity].
+                   --- intros a2 k2 _ Ee. apply (f_equal (@length nat)) in Ee. rewrite !app_length in Ee. simpl in Ee.
+                       destruct r; [congruence|simpl in Ee; lia].
+          -- (* queue / strings *)
+             apply Forall2_app; [exact Hq'|]. unfold kids. clear -Hchild.
+             assert (H : forall l, (forall a k', In (a, k') l -> nodeof N0 (c ++ [a]) = Some k') ->
+                       Forall2 (fun k q => nodeof N0 q = Some k) (map snd l) (map (fun e => c ++ [fst e]) l)).
+             { induction l as [|[a k'] l IHl]; intro H; simpl; constructor.
+               - apply H. left. reflexivity.
+               - apply IHl. intros a2 k2 Hin. apply H. right. exact Hin. }
+             apply H. intros a k' Hin. apply Hchild. exact Hin.
+          -- intros q Hq. apply in_app_or in Hq. destruct Hq as [Hq|Hq]; [apply Hne; right; exact Hq|].
+             unfold kids in Hq. apply in_map_iff in Hq. destruct Hq as [e [<- _]]. intro En. apply app_eq_nil in En. destruct En; discriminate.
+          -- (* sorted *)
+             destruct Hsort as [d [A [B [EAB [HA HB]]]]]. destruct A as [|a0 A'].
+             ++ simpl in EAB. subst B. exists (S d), qs', kids. split; [reflexivity|]. split.
+                ** intros q Hq. apply HB. right. exact Hq.
+                ** intros q Hq. unfold kids in Hq. apply in_map_iff in Hq. destruct Hq as [e [<- _]].
+                   rewrite app_length, (HB c (or_introl eq_refl)). simpl. lia.
+             ++ simpl in EAB. inversion EAB; subst a0. exists d, A', (B ++ kids). split; [rewrite app_assoc; reflexivity|]. split.
+                ** intros q Hq. apply HA. right. exact Hq.
+                ** intros q Hq. apply in_app_or in Hq. destruct Hq as [Hq|Hq]; [apply HB; exact Hq|].
+                   unfold kids in Hq. apply in_map_iff in Hq. destruct Hq as [e [<- _]].
+                   rewrite app_length, (HA c (or_introl eq_refl)). simpl. lia.
+          -- apply NoDup_filter. exact HUnd.
+          -- intros k Hk. apply in_app_or in Hk. unfold U'. apply filter_In. destruct Hk as [Hk|Hk].
+             ++ split; [apply Hincl; right; exact Hk|]. apply negb_true_iff, Nat.eqb_neq. intros ->. inversion Hqnd; contradiction.
+             ++ destruct (Hkid k Hk) as [H1 [_ H3]]. split; [exact H1|]. apply negb_true_iff, Nat.eqb_neq. exact H3.
+          -- (* NoDup of the new queue *)
+             apply NoDup_app_intro.
+             ++ inversion Hqnd; assumption.
+             ++ assert (H : forall l, NoDup (map fst l) -> (forall a k', In (a, k') l -> nodeof N0 (c ++ [a]) = Some k') -> NoDup (map snd l)).
+                { induction l as [|[a k'] l IHl]; intros Hnd Hl; simpl; constructor.
+                  - intro Hin. apply in_map_iff in Hin. destruct Hin as [[a2 k2] [Ek Hin]]. simpl in Ek. subst k2.
+                    pose proof (Hl a k' (or_introl eq_refl)) as H1. pose proof (Hl a2 k' (or_intror Hin)) as H2.
+                    pose proof (HI _ _ _ H1 H2) as Ee. apply app_inj_tail in Ee. destruct Ee as [_ <-].
+                    inversion Hnd as [|? ? Hnot _]; subst. apply Hnot. apply in_map_iff. exists (a, k'). split; [reflexivity|exact Hin].
+                  - inversion Hnd; subst. apply IHl; [assumption|]. intros a2 k2 Hin. apply Hl. right. exact Hin. }
+                apply H; [exact Hkeys|]. intros a k' Hin. apply Hchild. exact Hin.
+             ++ intros k Hk1 Hk2. destruct (Hkid k Hk2) as [_ [H2 _]]. apply H2. right. exact Hk1.
+          -- (* parents of discovered nodes are popped *)
+             intros s a k' ks Hs Hk' Hks Hor. unfold U'. rewrite filter_In. intros [HinU Hneq].
+             apply negb_true_iff, Nat.eqb_neq in Hneq.
+             destruct Hor as [Hin|Hnot].
+             ++ apply in_app_or in Hin. destruct Hin as [Hin|Hin].
+                ** exact (Hpar s a k' ks Hs Hk' Hks (or_introl (or_intror Hin)) HinU).
+                ** apply in_map_iff in Hin. destruct Hin as [[a2 k2] [Ek Hin]]. simpl in Ek. subst k2.
+                   apply Hchild in Hin. pose proof (HI _ _ _ Hk' Hin) as Ee. apply app_inj_tail in Ee. destruct Ee as [-> _].
+                   rewrite Hkc in Hks. inversion Hks. congruence.
+             ++ unfold U' in Hnot. rewrite filter_In in Hnot.
+                destruct (Nat.eq_dec k' kc) as [->|Hd].
+                ** exact (Hpar s a kc ks Hs Hk' Hks (or_introl (or_introl eq_refl)) HinU).
+                ** apply (Hpar s a k' ks Hs Hk' Hks); [|exact HinU]. right. intro Hu. apply Hnot. split; [exact Hu|].
+                   apply negb_true_iff, Nat.eqb_neq. exact Hd.
+        * pose proof (filter_remove_length kc U HkcU). unfold U'. lia.
+        * exists N'. split; [exact E'|exact HJ'].
   Qed.
 End FailPhase.
